@@ -1,6 +1,7 @@
 package gose
 
 import (
+	"fmt"
 	"go/token"
 	"go/types"
 	"math"
@@ -67,6 +68,9 @@ func init() {
 				}
 				v, ok2 := concU(args[1])
 				base, ok3 := concU(args[2])
+				if ok1 && !ok2 && ok3 && base == 10 {
+					return p.appendVals(fr, dst, p.decimalContract(args[1].(*Term), signed))
+				}
 				if !ok1 || !ok2 || !ok3 {
 					return fallThrough{}
 				}
@@ -111,6 +115,12 @@ func init() {
 				s, ok1 := concBytes(args[0])
 				base, ok2 := concU(args[1])
 				bits, ok3 := concU(args[2])
+				if !ok1 && ok2 && ok3 && base == 10 {
+					if r, ok := p.parseDecimalContract(args[0], int(bits), signed); ok {
+						return r
+					}
+					p.unsupported("strconv.Parse%s of symbolic text that is not the output of a decimal writer", map[bool]string{true: "Int", false: "Uint"}[signed])
+				}
 				if !ok1 || !ok2 || !ok3 {
 					return fallThrough{}
 				}
@@ -178,3 +188,117 @@ func init() {
 var extraIntrinsics []func(map[string]intrinsic)
 
 var _ = types.Typ
+
+
+// ---- the decimal contract (DESIGN §3.5): strconv.Append{Int,Uint}(v, 10) on a symbolic v yields k digit bytes dig_k_i(|v|)
+// (uninterpreted, constrained to '0'..'9', no leading zero), one path per digit count and sign; Parse{Int,Uint} of exactly
+// such a digit sequence returns the value (or a range error when it does not fit the requested bit size). ----
+
+var pow10 = func() [21]uint64 {
+	var t [21]uint64
+	t[0] = 1
+	for i := 1; i < 20; i++ {
+		t[i] = t[i-1] * 10
+	}
+	return t
+}()
+
+func (p *Path) decimalContract(v *Term, signed bool) []Value {
+	st := p.st
+	p.eng.noteStub(p.harness, "strconv.AppendInt/AppendUint/ParseInt/ParseUint on symbolic integers: decimal contract (digit strings are uninterpreted, writer and parser are inverse bijections)")
+	var out []Value
+	mag := v
+	if signed && p.decide(st.Cmp(OpSlt, v, st.BV(64, 0))) {
+		out = append(out, st.BV(8, '-'))
+		mag = st.Neg(v)
+	}
+	k := 20
+	for d := 1; d < 20; d++ {
+		if p.decide(st.Cmp(OpUlt, mag, st.BV(64, pow10[d]))) {
+			k = d
+			break
+		}
+	}
+	for i := 0; i < k; i++ {
+		d := st.UF(fmt.Sprintf("dig_%d_%d", k, i), 8, mag)
+		lo := uint64('0')
+		if i == 0 && k > 1 {
+			lo = '1'
+		}
+		p.assume(st.And(st.Cmp(OpUle, st.BV(8, lo), d), st.Cmp(OpUle, d, st.BV(8, '9'))))
+		out = append(out, d)
+	}
+	if k == 1 {
+		// single digit: the digit is determined
+		p.assume(st.Eq(out[len(out)-1].(*Term), st.Add(st.BV(8, '0'), st.Extract(mag, 7, 0))))
+	}
+	return out
+}
+
+func (p *Path) parseDecimalContract(sv Value, bits int, signed bool) (Value, bool) {
+	st := p.st
+	var bs []*Term
+	switch s := sv.(type) {
+	case *Str:
+		if s.IsArr() {
+			return nil, false
+		}
+		bs = p.strBytes(s)
+	case []Value:
+		for _, e := range s {
+			bs = append(bs, e.(*Term))
+		}
+	default:
+		return nil, false
+	}
+	neg := false
+	if len(bs) > 0 && bs[0].Op == OpConst {
+		switch bs[0].C {
+		case '-':
+			if !signed {
+				return nil, false
+			}
+			neg = true
+			bs = bs[1:]
+		case '+':
+			return nil, false
+		}
+	}
+	k := len(bs)
+	if k == 0 || k > 20 {
+		return nil, false
+	}
+	var mag *Term
+	for i, b := range bs {
+		if b.Op != OpUF || b.Name != fmt.Sprintf("dig_%d_%d", k, i) || len(b.Args) != 1 {
+			return nil, false
+		}
+		if mag == nil {
+			mag = b.Args[0]
+		} else if !same(mag, b.Args[0]) {
+			return nil, false
+		}
+	}
+	if bits == 0 {
+		bits = 64
+	}
+	var fits *Term
+	switch {
+	case !signed && bits == 64:
+		fits = st.True
+	case !signed:
+		fits = st.Cmp(OpUlt, mag, st.BV(64, uint64(1)<<uint(bits)))
+	case neg:
+		fits = st.Cmp(OpUle, mag, st.BV(64, uint64(1)<<uint(bits-1)))
+	default:
+		fits = st.Cmp(OpUlt, mag, st.BV(64, uint64(1)<<uint(bits-1)))
+	}
+	if !p.decide(fits) {
+		return Tuple{st.BV(64, 0), p.newErrorString(mkStr("strconv: value out of range"))}, true
+	}
+	val := mag
+	if neg {
+		val = st.Neg(mag)
+	}
+	return Tuple{val, Iface{}}, true
+}
